@@ -161,6 +161,33 @@ try:
                     out["changed"].append([m, n, "gone"])
                 elif getattr(L, n) is not v:
                     out["changed"].append([m, n, type(getattr(L, n)).__name__])
+        # ... and after the library has been USED (a name that the new module re-binds lazily, on first use, leaves the
+        # legacy module holding the stale object): where each legacy name lives in the new package now
+        home = {}
+        news = [M for k, M in sorted(sys.modules.items()) if k.startswith("AcraNetwork.IRIG106") and M is not None]
+        for m in mods:
+            for n, v in first[m].items():
+                for T in news:
+                    if n in vars(T) and vars(T)[n] is v:
+                        home[(m, n)] = T
+                        break
+        for T in news:                         # exercise: build every class, call its argument-less public methods
+            for n, C in sorted(vars(T).items()):
+                if isinstance(C, type) and C.__module__ == T.__name__ and not n.startswith("_"):
+                    try:
+                        o = C()
+                    except BaseException:
+                        continue
+                    for meth in ("pack", "to_rtc", "to_pinksheet_rtc", "__len__", "__repr__"):
+                        f = getattr(o, meth, None)
+                        if callable(f):
+                            try:
+                                f()
+                            except BaseException:
+                                pass
+        for (m, n), T in sorted(home.items(), key=lambda t: (t[0][0], t[0][1])):
+            if getattr(sys.modules[m], n, None) is not vars(T).get(n):
+                out["changed"].append([m, n, "no longer %s.%s after the library was used" % (T.__name__, n)])
 except BaseException as e:
     out["error"] = "%s: %s" % (type(e).__name__, e)
 print(json.dumps(out))
